@@ -831,7 +831,8 @@ def case_shield(ctx, cls, where):
     with TempDir() as tmp:
         serial = 0
         for cont in CONTINUATIONS + ["* a comment of its own"]:
-            for sep in ("\n", "\n\n") if cont == "second line" else ("\n",):
+            # line ends as the reference reader (and any text-mode reader) understands them: LF, CR LF and a bare CR
+            for sep in ("\n", "\n\n", "\r\n", "\r", "\r\r") if cont == "second line" else ("\n", "\r") if cont in ("+1 x1 >= 1", "x", "0") else ("\n",):
                 for how in ("explicit", "extension", "writer"):
                     value = "first line" + sep + cont
                     if where == "header":
